@@ -20,12 +20,12 @@ META = {
 def _solve(args):
     from harness.drivers import runner
 
-    seed, inst, cores, order, label, sv, xif = args
+    seed, inst, cores, order, label, sv, xif, xg = args
     tab = runner.scale_table(random.Random(seed))
     # token 6 is a near-duplicate of token 3 (relative 1e-7 in mu^2): a distinct target that
     # np.isclose would call equal
     tab[6] = tab[3] * (1 + 5e-8)
-    r = runner.solve_real(inst, tab, cores=cores, pool_log=True, order=order, sv=sv, xif=xif)
+    r = runner.solve_real(inst, tab, cores=cores, pool_log=True, order=order, sv=sv, xif=xif, xgrid=xg)
     return {"label": label, "inst": inst, "err": r["err"], "ops": r["ops"], "pools": r["pools"]}
 
 
@@ -65,15 +65,17 @@ def run(chk):
             sv, xif = chk.rng.choice([("exponentiated", 0.7), ("expanded", 1.3)])
         seed = chk.rng.randrange(2**31)
         order = (2, 0) if (chk.thorough() and b % 2) else (1, 0)
+        # grids of 6, 3 and 5 points: the hand-out of grid points to 2 and 3 workers differs with the size
+        xg = [[0.01, 0.05, 0.1, 0.3, 0.6, 1.0], [0.1, 0.5, 1.0], [0.02, 0.1, 0.3, 0.6, 1.0]][b % 3]
         bases.append(inst)
         ts = inst["targets"]
         for cores in (1, 2, 3, -13):
-            jobs.append((seed, inst, cores, order, f"base{b}:cores={cores}", sv, xif))
+            jobs.append((seed, inst, cores, order, f"base{b}:cores={cores}", sv, xif, xg))
         for perm in list(itertools.permutations(ts))[1:]:
-            jobs.append((seed, dict(inst, targets=[list(t) for t in perm]), 1, order, f"base{b}:target-order={list(perm)}", sv, xif))
+            jobs.append((seed, dict(inst, targets=[list(t) for t in perm]), 1, order, f"base{b}:target-order={list(perm)}", sv, xif, xg))
         for n in range(1, len(ts)):
             for sub in itertools.combinations(ts, n):
-                jobs.append((seed, dict(inst, targets=[list(t) for t in sub]), 2 if n == 1 else 1, order, f"base{b}:co-targets={list(sub)}", sv, xif))
+                jobs.append((seed, dict(inst, targets=[list(t) for t in sub]), 2 if n == 1 else 1, order, f"base{b}:co-targets={list(sub)}", sv, xif, xg))
     from concurrent.futures import ProcessPoolExecutor
 
     # executor workers are not daemonic, so the solver can start its own pools
